@@ -2,9 +2,9 @@ package main
 
 import (
 	"bytes"
-	"regexp"
 	"encoding/json"
 	"fmt"
+	"regexp"
 	"strings"
 
 	"simrt"
